@@ -188,6 +188,9 @@ func (t *WeightedMerkleTrie) deserializeTrie(pairs []*PersistTriePair, ind *int)
 	if *ind >= len(pairs) {
 		return nil, errors.New("index out of bounds")
 	}
+	if pairs[*ind] == nil {
+		return nil, errors.New("invalid path: nil node")
+	}
 
 	node, err := DeserializeNode(pairs[*ind].Value)
 	if err != nil {
